@@ -4,7 +4,7 @@
      Build        grow the shape (LayoutShapes actions); memory restarts zeroed between its guards
      Put(j, v)    lens on listing entry j, as coded: write v over the footprint [RootOffs+Offset, +size)
      Get(j)       read the footprint
-     Putt / Gett  the Reflector: `case *S` as Put / Get, anything else panics and writes nothing
+     Putt / Gett  the Reflector: `case *S` as Put / Get, every other class of Optics!ForeignClasses panics and writes nothing
    Invariants (C01 / C02 on states): after Put exactly the focused cells hold the value and every byte outside the
    field's extent - other fields, padding, guards - is what it was; Get returns the focused cells; a rejected
    Putt / Gett leaves memory untouched. *)
@@ -25,11 +25,11 @@ DoGet(j, how) == LET u == Unfold(sh)  fp == Foot(u, j) IN
   /\ last' = [op |-> "get", how |-> how, j |-> j, got |-> GetBytes(Cells(sh), mem, fp[1], fp[2]), before |-> mem]
   /\ UNCHANGED <<sh, mem>>
 Reject(what) == last' = [op |-> "reject", what |-> what, before |-> mem] /\ UNCHANGED <<sh, mem>>
-DynArgs == {"*S", "S", "*Other", "nil"}
+DynArgs == ForeignClasses \ {"nil-own"}        \* a nil *S is not dereferenced here
 Ops == sh # <<>> /\ \E j \in ByVal(Listing(sh)) :
          \/ \E v \in 0..2 : DoPut(j, v, "Put")
          \/ DoGet(j, "Get")
-         \/ \E a \in DynArgs : IF a = "*S" THEN (\E v \in 0..2 : DoPut(j, v, "Putt")) \/ DoGet(j, "Gett")
+         \/ \E a \in DynArgs : IF PuttAsCoded(a) = "put" THEN (\E v \in 0..2 : DoPut(j, v, "Putt")) \/ DoGet(j, "Gett")
                                ELSE Reject(a)
 MNext == Build \/ Ops
 MSpec == MInit /\ [][MNext]_vars
@@ -46,7 +46,7 @@ MemExact ==
          /\ DOMAIN last.got = {c \in f[1]..f[2] : cs[c].own /\ cs[c].size > 0}
          /\ \A c \in DOMAIN last.got : last.got[c] = vals[c]
          /\ mem = last.before
-    [] last.op = "reject" -> mem = last.before
+    [] last.op = "reject" -> mem = last.before /\ ForeignWant(last.what) = "panic"
 \* cells never become corrupt (a partially written cell would read -1)
 NoTornCell == sh # <<>> => \A c \in 1..Len(Cells(sh)) : CellVals(Cells(sh), mem)[c] # -1
 ====
